@@ -9,8 +9,32 @@ import (
 	"os/exec"
 	"path/filepath"
 	"strings"
+	"sync"
 	"time"
 )
+
+// Scratch directories of the running process; removed on normal exit by their
+// owners and, through CleanupTemps, when the process is told to terminate.
+var (
+	tempMu   sync.Mutex
+	tempDirs = map[string]bool{}
+)
+
+// RegisterTemp records a scratch directory for CleanupTemps.
+func RegisterTemp(dir string) {
+	tempMu.Lock()
+	tempDirs[dir] = true
+	tempMu.Unlock()
+}
+
+// CleanupTemps removes every registered scratch directory.
+func CleanupTemps() {
+	tempMu.Lock()
+	defer tempMu.Unlock()
+	for d := range tempDirs {
+		os.RemoveAll(d)
+	}
+}
 
 // NativeCase is one replay case for the native harness runner.
 type NativeCase struct {
@@ -63,6 +87,7 @@ func RunNative(repo, pkgDir string, overlay map[string][]byte, cases []NativeCas
 	if err != nil {
 		return nil, "", err
 	}
+	RegisterTemp(tmp)
 	defer os.RemoveAll(tmp)
 	repl := map[string]string{}
 	i := 0
